@@ -36,8 +36,13 @@ class ConstraintViolatedError(Exception):
 
 class ValueConstraintViolatedError(ConstraintViolatedError):
     def __init__(self, constraint, value, **kwargs):
+        if value is None:
+            # e.g. the response of a command whose command code is not known
+            value_str = "None"
+        else:
+            value_str = f"0x{int(value):x} = {int(value)}"
         super().__init__(
-            f"Parsed bad value for {constraint.tpm_type.__name__} {constraint.constraint_path} = 0x{int(value):x} = {int(value)} not in {constraint.valid_values}",
+            f"Parsed bad value for {constraint.tpm_type.__name__} {constraint.constraint_path} = {value_str} not in {constraint.valid_values}",
             **kwargs,
         )
         self.constraint = constraint
